@@ -197,24 +197,28 @@ def tokenBody : List Char → List Char × List Char
     if isSpace c || c = '#' || isPunct c then ([], c :: cs)
     else let (t, r) := tokenBody cs; (c :: t, r)
 
-/-- `ReadToken`: `(token, rest)`; the empty token means end of input. -/
-def readToken (s : List Char) : List Char × List Char :=
-  match discardWs false s with
+/-- `ReadToken` started with `DiscardWhitespace`'s `in_comment` flag = `ic` (the real
+function always starts with `false`; the generalisation is what the proofs induct on). -/
+def readTokenFrom (ic : Bool) (s : List Char) : List Char × List Char :=
+  match discardWs ic s with
   | [] => ([], [])
   | c :: cs =>
     if isPunct c then ([c], cs)
     else let (t, r) := tokenBody cs; (c :: t, r)
 
+/-- `ReadToken`: `(token, rest)`; the empty token means end of input. -/
+def readToken (s : List Char) : List Char × List Char := readTokenFrom false s
+
 /-- All tokens of a text: `ReadToken` until it returns the empty token.  Fuel = length
 of the input + 1 (each non-empty token consumes at least one character);
-`none` = out of fuel (cannot happen, `tokens_fuel`). -/
-def tokensAux : Nat → List Char → Option (List (List Char))
+`none` = out of fuel. -/
+def tokensAuxFrom (ic : Bool) : Nat → List Char → Option (List (List Char))
   | 0, _ => none
   | fuel + 1, s =>
-    match readToken s with
+    match readTokenFrom ic s with
     | ([], _) => some []
-    | (t, r) => (tokensAux fuel r).map (t :: ·)
+    | (t, r) => (tokensAuxFrom false fuel r).map (t :: ·)
 
-def tokens (s : List Char) : Option (List (List Char)) := tokensAux (s.length + 1) s
+def tokens (s : List Char) : Option (List (List Char)) := tokensAuxFrom false (s.length + 1) s
 
 end Emboss.Text
